@@ -952,5 +952,5 @@ class VectorContainer:
         raise NotImplementedError('`exec()` method not implemented yet')
 
 
-if _verif.ON:
+if _verif.ON and _verif.CONTAINER_OPS:
     _verif.hook_container(VectorContainer)
